@@ -53,3 +53,33 @@
 ; ---- RFC 6287 ---------------------------------------------------------------
 (define-fun minq ((f Int)) Int (ite (or (= f 1) (= f 3) (= f 5)) 8 (ite (or (= f 2) (= f 4) (= f 6)) 10 0)))
 (define-fun padr ((s BSeq) (n Int)) BSeq (cat s (zeros (- n (len s)))))
+
+; ---- text <-> numbers (library vocabulary, uninterpreted) --------------------
+(declare-fun isdec64 (BSeq) Bool)
+(declare-fun decval (BSeq) Int)
+(assert (forall ((s BSeq)) (! (=> (isdec64 s) (and (<= 0 (decval s)) (<= (decval s) 18446744073709551615))) :pattern ((decval s)))))
+(declare-fun isint (BSeq) Bool)
+(declare-fun intval (BSeq) Int)
+(declare-fun ishex (BSeq) Bool)
+(declare-fun hexdec (BSeq) BSeq)
+(assert (forall ((s BSeq)) (! (=> (ishex s) (= (* 2 (len (hexdec s))) (len s))) :pattern ((hexdec s)))))
+(declare-fun isdecbig (BSeq) Bool)
+(declare-fun bighex (BSeq) BSeq)
+(declare-fun nparts (BSeq BSeq) Int)
+(declare-fun part (BSeq BSeq Int) BSeq)
+(declare-fun partrest (BSeq BSeq Int) BSeq)
+(declare-fun apl (BSeq) Int)
+(assert (forall ((s BSeq)) (! (and (<= 0 (apl s)) (<= (apl s) (len s))) :pattern ((apl s)))))
+; lpad0(s, n): s left-padded with '0' to at least n characters; characterised by
+;   identity when long enough, invariance under prepending one '0' while short, and its length
+(declare-fun lpad0 (BSeq Int) BSeq)
+(assert (forall ((s BSeq) (n Int)) (! (=> (>= (len s) n) (= (lpad0 s n) s)) :pattern ((lpad0 s n)))))
+(assert (forall ((s BSeq) (n Int)) (! (=> (< (len s) n) (= (lpad0 (cat str!x30 s) n) (lpad0 s n))) :pattern ((lpad0 (cat str!x30 s) n)))))
+(assert (forall ((s BSeq) (n Int)) (! (= (len (lpad0 s n)) (imax (len s) n)) :pattern ((lpad0 s n)))))
+; rpad0(s, n): s right-padded with '0' to at least n characters
+(declare-fun rpad0 (BSeq Int) BSeq)
+(assert (forall ((s BSeq) (n Int)) (! (=> (>= (len s) n) (= (rpad0 s n) s)) :pattern ((rpad0 s n)))))
+(assert (forall ((s BSeq) (n Int)) (! (=> (< (len s) n) (= (rpad0 (cat s str!x30) n) (rpad0 s n))) :pattern ((rpad0 (cat s str!x30) n)))))
+(assert (forall ((s BSeq) (n Int)) (! (= (len (rpad0 s n)) (imax (len s) n)) :pattern ((rpad0 s n)))))
+; the operating system's random stream (an arbitrary infinite sequence)
+(declare-fun rng () BSeq)
